@@ -112,7 +112,11 @@ theorem inv_ctrl {s : Skel} {o : Out} (hn : ∀ ss, s ≠ .block ss)
 theorem exits_sound {s : Skel} {o : Out} (h : Exits s o) : Inv s o := by
   induction h with
   | other => exact inv_leaf rfl (fun _ h => by cases h)
+  | otherD => exact inv_leaf rfl (fun _ h => by cases h)
   | ret => exact inv_leaf rfl (fun _ h => by cases h)
+  | retD => exact inv_leaf rfl (fun _ h => by cases h)
+  | ifD => exact inv_ctrl (fun _ h => by cases h) (fun _ => ⟨fun h => (by cases h), fun h => (by cases h)⟩)
+  | loopD => exact inv_ctrl (fun _ h => by cases h) (fun _ => ⟨fun h => (by cases h), fun h => (by cases h)⟩)
   | brk => exact inv_leaf rfl (fun _ h => by cases h)
   | cont => exact inv_leaf rfl (fun _ h => by cases h)
   | defeat => exact inv_leaf rfl (fun _ h => by cases h)
